@@ -134,6 +134,16 @@ def check_integrate(run, drv, ti, ncases, max_nt):
                 run.violation("a step whose time step jitters by more than 1% is not a trapezoid step",
                               dict(info, step=i + 1, got=float(d[i]), trapezoid=float(trap[i])))
                 break
+        # a step that is not a trapezoid step used the high-order stencil: every adjacent pair of steps in
+        # its window (the last `order` steps up to and including it) must be uniform within 1%
+        for i in range(nt - 1):
+            if abs(d[i] - trap[i]) > eps:
+                lo = max(1, i - order + 2)
+                bad = [j for j in range(lo, i + 1) if abs(dt[j] - dt[j - 1]) > 0.0101 * dt[j]]
+                if bad:
+                    run.violation("the high-order stencil was used on a step whose window contains a jittered time step",
+                                  dict(info, step=i + 1, jitter_at=[b + 1 for b in bad]))
+                    break
         # near the ends: first step and last step are trapezoid steps
         if nt >= 2 and abs(d[0] - trap[0]) > eps:
             run.violation("first step is not a trapezoid step", dict(info, got=float(d[0]), trapezoid=float(trap[0])))
